@@ -87,8 +87,6 @@ def main():
                     skipped.add(text)   # not a succeeding expression
                     continue
                 except Exception as e:      # noqa
-                    if 'unhashable' in str(e):
-                        continue        # the known finding
                     print(json.dumps(dict(
                         status='failed', cases=cases, expression=text,
                         options=opts, entry=entry,
